@@ -317,6 +317,17 @@ def op_fold(case, pm):
             res['violations'].append({'kind': 'raising-expression-rewritten', 'detail': repr(a)})
         if a[0] == 'value' and ('nan' in a[1]) and res['folded'] and case.get('closed'):
             res['violations'].append({'kind': 'nan-expression-rewritten', 'detail': repr(a)})
+    if case.get('interplay'):
+        # the same program under the default options (folding next to hoisting and renaming): value of V again
+        try:
+            out_d = pm.minify(src)
+        except Exception as e:
+            return {'status': 'error', 'exc': exc_info(e)}
+        a = _eval_stmt_value(src if not (PY2 and isinstance(src, unicode)) else src.encode('utf-8'))
+        b = _eval_stmt_value(out_d if not (PY2 and isinstance(out_d, unicode)) else out_d.encode('utf-8'))
+        res['interplay_hoisted'] = out_d.count('=True') + out_d.count('=False') > 0 and out_d != out_on
+        if a != b:
+            res['violations'].append({'kind': 'value-differs-under-default-options', 'detail': '%r -> %r | %s' % (a, b, out_d[:300])})
     if res['violations']:
         res['status'] = 'violation'
     return res
